@@ -28,6 +28,7 @@ partial def parseTy : Sexp → Option Ty
   | .list [.atom "L", t] => do let t ← parseTy t; pure (.lc t)
   | .list [.atom "M", k, v] => do let k ← parseTy k; let v ← parseTy v; pure (.map k v)
   | .list [.atom "P", a, b] => do let a ← parseTy a; let b ← parseTy b; pure (.pair a b)
+  | .list [.atom "V", v, t] => do let v ← atomNat v; let t ← parseTy t; pure (.versioned v t)
   | _ => none
 
 partial def renderTy : Ty → Sexp
@@ -41,6 +42,7 @@ partial def renderTy : Ty → Sexp
   | .lc t => .list [.atom "L", renderTy t]
   | .map k v => .list [.atom "M", renderTy k, renderTy v]
   | .pair a b => .list [.atom "P", renderTy a, renderTy b]
+  | .versioned v t => .list [.atom "V", .atom (toString v), renderTy t]
 
 def hexRows (xs : List Sexp) : Option (List Bytes) := xs.mapM atomHex
 def natRows (xs : List Sexp) : Option (List Nat) := xs.mapM atomNat
@@ -63,6 +65,7 @@ partial def parseCol : Sexp → Option Col
   | .list [.atom "M", .list offs, k, v] => do
     let o ← natRows offs; let k ← parseCol k; let v ← parseCol v; pure (.map o k v)
   | .list [.atom "P", a, b] => do let a ← parseCol a; let b ← parseCol b; pure (.pair a b)
+  | .list [.atom "V", v, c] => do let v ← atomNat v; let c ← parseCol c; pure (.versioned v c)
   | _ => none
 
 def hexAtoms (rows : List Bytes) : List Sexp := rows.map fun r => .atom (toHex r)
@@ -82,6 +85,7 @@ partial def renderCol : Col → Sexp
   | .lc t rows => .list (.atom "L" :: renderTy t :: hexAtoms rows)
   | .map offs k v => .list [.atom "M", .list (offs.map fun o => .atom (toString o)), renderCol k, renderCol v]
   | .pair a b => .list [.atom "P", renderCol a, renderCol b]
+  | .versioned v c => .list [.atom "V", .atom (toString v), renderCol c]
 
 def optNat (s : String) : Option (Option Nat) := if s == "-" then some none else s.toNat?.map some
 
